@@ -104,6 +104,20 @@ func genWild(r *rng) *gType {
 			if r.intn(12) == 0 {
 				pf.typ = uintTyps[2]
 			}
+			if r.intn(5) == 0 { // tag options that make no sense on a prefix: the layout must be rejected, not misused
+				switch r.intn(5) {
+				case 0:
+					pf.inline, pf.length = true, 1+r.intn(3)
+				case 1:
+					pf.length = r.intn(4)
+				case 2:
+					pf.param = "p"
+				case 3:
+					pf.group, pf.param = true, "g"
+				default:
+					pf.enc = []string{"none", "base64"}[r.intn(2)]
+				}
+			}
 			fs = append(fs, pf)
 		}
 		for i := 0; i < n; i++ {
@@ -120,7 +134,8 @@ func genWild(r *rng) *gType {
 			case 7, 8:
 				f.typ = uintTyps[r.intn(5)]
 			case 9:
-				f.typ = reflect.PtrTo([]reflect.Type{tString, uintTyps[2], tBytes}[r.intn(3)])
+				f.typ = reflect.PtrTo([]reflect.Type{tString, uintTyps[2], tBytes, reflect.TypeOf(Hex16(0)), reflect.TypeOf(RevStr("")), reflect.TypeOf(Picky("")),
+					reflect.ArrayOf(3, reflect.TypeOf(byte(0))), reflect.TypeOf(int8(0))}[r.intn(8)])
 			case 10:
 				f.typ = reflect.TypeOf(Hex16(0))
 			case 11:
@@ -190,7 +205,11 @@ func genClass(r *rng) *gType {
 		newF := func() *gField {
 			f := &gField{name: fmt.Sprintf("F%d", idx), length: -1}
 			idx++
-			switch r.intn(11) {
+			switch r.intn(13) {
+			case 11: // pointer to a byte array (its length is the array's)
+				f.typ = reflect.PtrTo(reflect.ArrayOf(1+r.intn(4), reflect.TypeOf(byte(0))))
+			case 12: // pointer to a text marshaler
+				f.typ = reflect.PtrTo(reflect.TypeOf(Hex16(0)))
 			case 9: // pointer to a narrow unsigned integer
 				f.typ = reflect.PtrTo(uintTyps[r.intn(3)])
 				f.base = []int{0, 0, 16}[r.intn(3)]
